@@ -482,3 +482,46 @@ Proof.
   - do 2 eexists. split; [vm_compute; reflexivity|]. split; vm_compute; auto.
   - eexists [_; _]. vm_compute. reflexivity.
 Qed.
+
+(* 21. the aggregates of every node built by union / split / join (Treap.mk): numNodes = left + right + 1 and
+   numBytes = left + right + the bytes of THE item the node is built with, the children's aggregates being read
+   (numInfo) from exactly the two children the node is built with; the node SetItem builds is Treap.single *)
+Definition agg_calls (f : string) : list (string * list gexpr) :=
+  filter (fun c => String.eqb (fst c) "t.mkNode" || String.eqb (fst c) "numInfo") (calls_a 400 (body f)).
+
+Fixpoint aggs_ok (last : option (gexpr * gexpr)) (cs : list (string * list gexpr)) : bool :=
+  match cs with
+  | [] => true
+  | ("numInfo", [_; l; r]) :: rest => aggs_ok (Some (l, r)) rest
+  | ("t.mkNode", [GVar it; l; r; n; b]) :: rest =>
+    match last with
+    | Some (l0, r0) =>
+      (String.eqb (gshow l) (gshow l0)) && (String.eqb (gshow r) (gshow r0)) &&
+      (String.eqb (gshow n) (gshow (GBin "+" (GBin "+" (GVar "leftNum") (GVar "rightNum")) (GInt 1)))) &&
+      (String.eqb (gshow b) (gshow (GBin "+" (GBin "+" (GVar "leftBytes") (GVar "rightBytes"))
+                                      (GCall "uint64" [GCall (it ++ ".NumBytes") [GVar "t"]])))) &&
+      aggs_ok last rest
+    | None => false
+    end
+  | _ => false
+  end.
+
+Theorem node_aggregates_are_mk :
+  aggs_ok None (agg_calls "Store.union") = true /\ aggs_ok None (agg_calls "Store.split") = true /\
+  aggs_ok None (agg_calls "Store.join") = true /\
+  List.length (filter (fun c => String.eqb (fst c) "t.mkNode") (agg_calls "Store.union")) = 3%nat /\
+  List.length (filter (fun c => String.eqb (fst c) "t.mkNode") (agg_calls "Store.split")) = 2%nat /\
+  List.length (filter (fun c => String.eqb (fst c) "t.mkNode") (agg_calls "Store.join")) = 2%nat /\
+  (forall ln rn lb rb ib : Z,
+     let rho := upd (upd (upd (upd (upd env0 "leftNum" ln) "rightNum" rn) "leftBytes" lb) "rightBytes" rb) "x.NumBytes(t)" ib in
+     geval rho (GBin "+" (GBin "+" (GVar "leftNum") (GVar "rightNum")) (GInt 1)) = Some (ln + rn + 1) /\
+     geval rho (GBin "+" (GBin "+" (GVar "leftBytes") (GVar "rightBytes")) (GCall "uint64" [GCall "x.NumBytes" [GVar "t"]])) = Some (lb + rb + ib)).
+Proof.
+  repeat split; try (vm_compute; reflexivity); intros; cbn; reflexivity.
+Qed.
+
+Theorem new_node_is_single :
+  agg_calls "Collection.SetItem" =
+  [("t.mkNode", [GNil; GNil; GNil; GInt 1;
+                 GBin "+" (GCall "uint64" [GCall "len" [GVar "item.Key"]]) (GCall "uint64" [GCall "item.NumValBytes" [GVar "t"]])])].
+Proof. vm_compute. reflexivity. Qed.
